@@ -11,7 +11,7 @@ from common import cstr, clist, cfloat, copt, cpair, cz
 
 HEADER = ('From Coq Require Import List NArith ZArith Bool String Ascii '
           'PrimFloat.\nFrom T4V Require Import Base.Str Base.Scalar C12.Text '
-          'C12.Model C12.Exec.\nOpen Scope string_scope.\n')
+          'C12.Model C12.Cards C12.Exec.\nOpen Scope string_scope.\n')
 
 IMP_VALUES = ['0', '1', '1', '2', '0.5', '1.0', '0.0', '4', '1e-1', '0.25',
               '8', '0', '16', '3', '1.5']
@@ -42,7 +42,7 @@ EXC_MAP = {'IndexError': 'EIndex', 'ValueError': 'EValue',
            'KeyError': 'EKey', 'ParseMCNPCellError': 'ECell',
            'MissingLatticeOptError': 'EMissingLattice',
            'AssertionError': 'EAssert',
-           'TransformationError': 'ETransf'}
+           'TransformationError': 'ETransf', 'AttributeError': 'EAttr'}
 
 
 # ---------------------------------------------------------------------------
@@ -378,6 +378,9 @@ TR_CARDS = {
 # implementation driver
 # ---------------------------------------------------------------------------
 
+CONTENTS = {'c': [], 'd': []}     # card contents of the last run_impl call
+
+
 def run_impl(text, geoms, lattice_args=()):
     '''ParseMCNPCell(parser, None, lattice_params).parse() on the deck text.
     Returns ('ok', [(id, cell dict)], skipped, transforms) or ('err', cls,
@@ -396,6 +399,10 @@ def run_impl(text, geoms, lattice_args=()):
         rev[repr(get_ast(geom))] = geom
     lattice_params = parse_lattice(list(lattice_args))
     with impl.mip_parser(text) as parser:
+        CONTENTS['c'] = [c.content() for c in
+                         parser.cards(blocks='c', skipcomments=True)]
+        CONTENTS['d'] = [c.content() for c in
+                         parser.cards(blocks='d', skipcomments=True)]
         transforms = {k: [float(x) for x in v]
                       for k, v in get_mcnp_transforms(parser).items()}
         try:
@@ -540,7 +547,9 @@ def c_pcase(deck, lattice_args, result):
         out = f'(Ok ({cells}, {clist(cz(k) for k in result[2])}))'
     else:
         out = f'(Err {EXC_MAP.get(result[1], "EOther_" + result[1])})'
-    return f'(mkCase {tables} {imps} {cards} {lats} {out})'
+    ctexts = clist(cstr(t) for t in CONTENTS['c'])
+    dtexts = clist(cstr(t) for t in CONTENTS['d'])
+    return f'(mkCase {tables} {imps} {cards} {lats} {ctexts} {dtexts} {out})'
 
 
 # ---------------------------------------------------------------------------
@@ -556,6 +565,16 @@ def note_list(stdout):
     if not m:
         return []
     return [int(x) for x in m.group(1).split(',') if x.strip()]
+
+
+def note_bytes_lines(stdout):
+    '''The bytes print() wrote for the NOTE (from the newline that starts it to
+    the newline that ends it), split at newline characters; [] without NOTE.'''
+    start = stdout.find('\nNOTE:')
+    if start < 0:
+        return []
+    end = stdout.index('\nfinished at:', start)
+    return stdout[start:end].split('\n')
 
 
 def body_after_header(text):
